@@ -296,9 +296,20 @@ class BaseModel(metaclass=ModelMeta):
         if extra:
             if cls.__psvc_config__.get("extra") == "forbid":
                 raise ValidationError(f"{cls.__name__}: extra inputs are not permitted: {extra}")
+        fvals, mvals = _validators_of(cls)
+        for fn, mode in mvals:
+            if mode == "before":
+                data = fn(cls, data)
         for fname, (ann, finfo) in fields.items():
             if fname in data:
-                value = validate_field(cls.__name__, fname, ann, finfo, data[fname])
+                raw = data[fname]
+                for fn, names, mode in fvals:
+                    if mode in ("before", "plain") and (fname in names or "*" in names):
+                        raw = fn(cls, raw)
+                value = validate_field(cls.__name__, fname, ann, finfo, raw)
+                for fn, names, mode in fvals:
+                    if mode == "after" and (fname in names or "*" in names):
+                        value = fn(cls, value)
             else:
                 if finfo.default_factory is not None:
                     value = finfo.default_factory()
@@ -307,6 +318,9 @@ class BaseModel(metaclass=ModelMeta):
                 else:
                     value = smart_deepcopy(finfo.default)
             object.__setattr__(self, fname, value)
+        for fn, mode in mvals:
+            if mode == "after":
+                fn(self)
 
     def __setattr__(self, name, value):
         if not name.startswith("_") and name not in type(self).__psvc_fields__:
@@ -357,7 +371,7 @@ class GhostJson(str):
         return o
 
 
-def model_serializer(*a, **kw):
+def _passthrough_decorator(*a, **kw):
     if len(a) == 1 and callable(a[0]) and not kw:
         return a[0]
 
@@ -365,3 +379,49 @@ def model_serializer(*a, **kw):
         return f
 
     return deco
+
+
+# serialisation hooks only matter to the JSON layer (pydantic's, checked natively): no-ops under the engine
+model_serializer = _passthrough_decorator
+field_serializer = _passthrough_decorator
+computed_field = _passthrough_decorator
+
+
+def field_validator(*fields, mode="after", **kw):
+    """pydantic's field validators run around the declared validation of the named fields (before / after)"""
+
+    def deco(f):
+        fn = f.__func__ if isinstance(f, (classmethod, staticmethod)) else f
+        fn.__psvc_field_validator__ = (tuple(fields), mode)
+        return f
+
+    return deco
+
+
+def model_validator(*, mode="after", **kw):
+    def deco(f):
+        fn = f.__func__ if isinstance(f, (classmethod, staticmethod)) else f
+        fn.__psvc_model_validator__ = mode
+        return f
+
+    return deco
+
+
+def _validators_of(cls):
+    fv, mv = [], []
+    for klass in reversed(cls.__mro__):
+        for v in klass.__dict__.values():
+            fn = v.__func__ if isinstance(v, (classmethod, staticmethod)) else v
+            if hasattr(fn, "__psvc_field_validator__"):
+                fv.append((fn,) + fn.__psvc_field_validator__)
+            if hasattr(fn, "__psvc_model_validator__"):
+                mv.append((fn, fn.__psvc_model_validator__))
+    return fv, mv
+
+
+def __getattr__(name):
+    """any other name of the pydantic API is the real one (types, aliases, exceptions ...)"""
+    try:
+        return getattr(pydantic, name)
+    except AttributeError:
+        raise AttributeError(f"module 'pydantic' has no attribute {name!r}") from None
